@@ -126,7 +126,7 @@ pub fn run(seed: u64, ntraces: usize) {
                     (pi, cmd, match r.below(8) { 0 | 1 => 0, 2 | 3 => now + min_delay + r.below(30), 6 => 1u64 << 63, 7 => u64::MAX, _ => now + r.below(min_delay + 2) }) } };      // also etas in the upper half of u64: parked proposals
                 let p = &props[pi];
                 let mut payload = exec_payload(cmd, p, eta);
-                let variant = if let Some(("stray", _, _, _)) = forced { 14 } else if forced.is_some() || r.chance(2, 3) { 0 } else { r.below(15) };
+                let variant = if let Some(("stray", _, _, _)) = forced { 14 } else if forced.is_some() || r.chance(2, 3) { 0 } else { r.below(17) };
                 if variant == 13 { let mut v = vec![cmd]; v.extend_from_slice(p.target.as_bytes()); v.extend(nested_buf(&p.call_data));
                     let mut padded = vec![0u8; 32]; let b = big(p.value); let n = b.len(); padded[32 - n..].copy_from_slice(&b); v.extend(nested_buf(&padded)); v.extend_from_slice(&eta.to_be_bytes()); payload = v; }   // the same value with leading zero bytes: the same proposal
                 if variant == 1 { payload[1..33].copy_from_slice(&[0u8; 32]); }            // zero target
@@ -145,7 +145,9 @@ pub fn run(seed: u64, ntraces: usize) {
                     // approve at the gateway
                     let m = Msg { chain: chain.clone(), id: id.clone(), src: src.clone(), contract: contract.to_vec(), ph: keccak(&approved_payload) };
                     let raw = m.encode();
-                    let pr = build_proof(&mut r, &pool, &mut tab, &set, &domain, 0, &raw, 0);
+                    // variant 15: the batch is signed -- validly -- by a signer set the gateway never registered (an invented key, weight 1, threshold 1)
+                    let forged_set = SSet { signers: vec![SignerE { pk: pool.pk(3), key: Some(3), weight: bn(1) }], threshold: bn(1), nonce: vec![9u8; 32] };
+                    let pr = build_proof(&mut r, &pool, &mut tab, if variant == 15 { &forged_set } else { &set }, &domain, 0, &raw, 0);
                     let st = w.call0(&relayer, &gw, "approveMessages", vec![raw.clone(), pr.bytes.clone()]);
                     let mj = json!({"chain": hx(&m.chain), "id": hx(&m.id), "src": hx(&m.src), "contract": hx(&m.contract), "ph": hx(&m.ph)});
                     batches.push((id.clone(), raw.clone(), pr.bytes.clone(), mj.clone()));
@@ -251,6 +253,10 @@ pub fn run(seed: u64, ntraces: usize) {
                 step = w.call0(&caller, &gov, "transferOperatorship", vec![a.to_vec()]);
                 if step.res.result_status == 0 { cur_op = a.clone(); }
                 opj = json!({"op": "transferOp", "caller": hx(caller.as_bytes()), "a": hx(a.as_bytes())});
+            } else if k == 19 && r.chance(1, 3) {
+                // an upgrade transaction by the owner carrying an address: `upgrade` takes no arguments, the call is refused and the operator stays
+                step = w.call0(&owner, &gov, "upgrade", vec![u1.to_vec()]);
+                opj = json!({"op": "upgrade", "caller": hx(owner.as_bytes()), "a": hx(u1.as_bytes())});
             } else {
                 let caller = anyone.clone();
                 step = w.call0(&caller, &gov, "withdraw", vec![caller.to_vec(), big(5)]);
